@@ -250,6 +250,13 @@ def ftrimCharIn (t : List Nat) : Buf := rtrim t ++ [NUL]
 /-- what C sees through a `char *`: the bytes before the first NUL -/
 def cstr (b : Buf) : List Nat := b.takeWhile (· ≠ NUL)
 
+/-- the array `CHARACTER(len) a(size)` after the first elements were assigned the texts `vs`
+    (elements beyond `vs`, and texts beyond the array, are left alone) -/
+def mergeOut (len : Nat) : List Buf → List (List Nat) → List Buf
+  | [], _ => []
+  | ss, [] => ss
+  | _ :: ss, v :: vs => ((v ++ List.replicate len BLANK).take len) :: mergeOut len ss vs
+
 /-- the value of a `character(len=L)` variable assigned the text `s` -/
 def fassign (L : Nat) (s : List Nat) : List Nat := (s ++ List.replicate L BLANK).take L
 
